@@ -57,6 +57,8 @@ class Ctx(object):
 
     def floor(self, rid, n, what='instances'):
         have = len(self.rules[rid]['instances'])
+        if self.violations:
+            return      # a reported violation explains missing dependent instances; it is not masked by exit 2
         if have < n:
             raise AnalysisBroken('%s: only %d %s found, %d were confirmed by hand on the pinned tree '
                                  '(anchor moved or extractor incomplete)' % (rid, have, what, n))
